@@ -57,9 +57,9 @@ impl Slot {
 
         SLOT_TABLE.with_borrow_mut(|tab| {
             if s.starts_with("f") {
-                // the fresh index after `x` has to be in range as well.
+                // only the lower half of the range can be named, so that a name cannot exhaust the fresh slots.
                 let fresh_idx = s[1..].parse::<u32>().ok();
-                if let Some(x) = fresh_idx.filter(|x| *x < (1 << 30) - 1 && canonical(*x, &s[1..])) {
+                if let Some(x) = fresh_idx.filter(|x| *x < (1 << 29) && canonical(*x, &s[1..])) {
                     let out = x * 4 + 1;
                     if tab.fresh_idx <= out {
                         tab.fresh_idx = out + 4;
